@@ -173,6 +173,13 @@ def _hand_down(ctx):
         same = loop_of(incs[0]) is loop_of(calls[0])
         bad = not same or bool(guards(incs[0], stop=loop_of(incs[0])))
         ok = not bad
+    # positive evidence: the counter is (re)computed from loop positions instead
+    # of being advanced: comp_i + sec_i repeats values across components
+    recomputed = [n for n in walk_local(ct.node) if isinstance(n, ast.Assign) and norm(n.targets[0]) == 'self.next_tract_uid'
+                  and loop_of(n) is not None and isinstance(n.value, ast.BinOp)]
+    if recomputed:
+        bad = True
+        ok = False
     ctx.tri(ok, bad or len(incs) > 1, 'DEFUSE', 'construct_tracts: next_tract_uid += 1 exactly once per tract',
             detail_bad="the creation counter is not advanced once per constructed tract (outside the per-section "
                        "loop, conditional, or twice): tracts share / skip orig_index values",
